@@ -71,11 +71,8 @@ CALL_LIMIT_S = 2.0
 def run_call(classes, c):
     """One call on the implementation -> JSON-able observation; under the wall-clock watchdog (the token loops below
     are bounded by the proved n+2 tokens, the watchdog covers loops inside a single call)."""
-    try:
-        with G.limit(CALL_LIMIT_S):
-            return _run_call(classes, c)
-    except G.Watchdog:
-        return {'exc': f'no result within {CALL_LIMIT_S} s', 'hang': True}
+    ok, r = G.retrying(lambda: _run_call(classes, c), CALL_LIMIT_S)
+    return r if ok else {'exc': f'no result within {CALL_LIMIT_S} s of CPU time (twice)', 'hang': True}
 
 
 def hangs(r):
